@@ -379,6 +379,7 @@ def sign_match_cases(rng, res, n):
             md.dump("l.layout")
             variant = rng.choice(["sign_verify_ok", "verify_wrong_key", "verify_unsigned", "verify_with_append", "both_key_kinds",
                                   "missing_file", "sign_bad_key", "link_two_keys", "match_equal", "match_changed", "match_missing_link", "match_other_algorithm", "match_no_digest", "match_extra_file",
+                                  "match_empty_name_changed", "match_empty_name_equal", "match_colon_path_changed", "match_colon_path_equal",
                                   "link_append", "link_one_key", "verify_gpg_no_id", "verify_with_output", "no_key_arg",
                                   "verify_with_empty_output", "verify_many", "verify_many", "verify_many", "link_verify_gpg_no_id",
                                   "verify_both_key_kinds", "verify_both_key_kinds"])
@@ -495,6 +496,22 @@ def sign_match_cases(rng, res, n):
                     open("a.txt", "w").write("changed\n"); outcome = "differ"
                 elif variant == "match_extra_file":
                     open("b.txt", "w").write("b\n"); argv += ["b.txt"]; outcome = "differ"
+                elif variant.startswith("match_empty_name"):
+                    # the prefix option strips the whole path: the product is recorded - and compared - under the empty name
+                    lk = Link(name="s", products={"": {"sha256": hashlib.sha256(b"a\n").hexdigest()}})
+                    (Envelope.from_signable(lk) if dsse else Metablock(signed=lk)).dump(os.path.join(d, "s.link"))
+                    argv += ["--lstrip-paths", "a.txt"]
+                    if variant.endswith("changed"):
+                        open("a.txt", "w").write("changed\n"); outcome = "differ"
+                elif variant.startswith("match_colon_path"):
+                    # a file whose name contains a colon, named explicitly (not a URI of a registered scheme: a plain path)
+                    os.makedirs("out", exist_ok=True)
+                    open("out/app:v1.bin", "w").write("a\n")
+                    lk = Link(name="s", products={"out/app:v1.bin": {"sha256": hashlib.sha256(b"a\n").hexdigest()}})
+                    (Envelope.from_signable(lk) if dsse else Metablock(signed=lk)).dump(os.path.join(d, "s.link"))
+                    argv = ["--link", os.path.join(d, "s.link"), "--paths", "out/app:v1.bin"]
+                    if variant.endswith("changed"):
+                        open("out/app:v1.bin", "w").write("changed\n"); outcome = "differ"
                 elif variant == "match_missing_link":
                     argv[1] = os.path.join(d, "nope.link"); outcome = "load"
                 _av = argv
